@@ -426,6 +426,7 @@ type gen struct {
 	rng    *rand.Rand
 	tb     *table
 	base   string // <work>/tNNN
+	dname  string // name of the generated directory below base ("" = "d")
 	nextID int
 	extN   int
 }
@@ -549,7 +550,11 @@ func (g *gen) children(depth int) []*entry {
 
 func (g *gen) tree() *view {
 	rng := g.rng
-	root := filepath.Join(g.base, "d")
+	dn := g.dname
+	if dn == "" {
+		dn = "d"
+	}
+	root := g.base + "/" + dn // not filepath.Join: the name may be anything, "--" or " x " included
 	os.MkdirAll(root, 0o755)
 	os.MkdirAll(filepath.Join(g.base, "ext"), 0o755)
 	v := &view{dir: root}
@@ -1746,7 +1751,8 @@ func (tc *treeCheck) census() {
 func Run(r *mon.Run) {
 	r.Rule = "one case = one generated directory tree (2-14 top-level entries: regular files, valid links to files and directories, dangling links among dot-files and non-matching names (targets that do not exist, and targets whose resolution fails otherwise: through a regular file, an over-long component, the link itself), editor lock links, sub-directories with matching names inside; names with spaces, glob characters, leading dots, several extensions; empty / newline-only / unterminated / CRLF / non-UTF-8 contents) together with one filter table (the defaults, defaults with patterns removed, or user-modified tables of overlapping patterns whose tagging filters print <pattern|name|content>). Per tree: Converter.From(dir) against the reference model, 3 sequential and 4 concurrent calls (plus concurrent SetFilter of an unrelated pattern), explicitly named single files, several sources; a sample of default-table trees through the real curlrevshell -print-ctrl-i and the shellfuncsfile tool. distinct_nontrivial = distinct (filter table, entry names, kinds, content classes) signatures. " +
 		"Engine 'history': ONE Converter lives through 3-8 steps of From(dir) / From(single file) / From(several sources) / SetFilter(add a pattern) / SetFilter(another filter for a pattern) / SetFilter(pattern, nil) - preferably of the pattern that a file present in the directory is converted by - / SetFilter(a removed pattern again) / SetFilter(absent pattern, nil); the filters are tagging filters, FromShell and FromPerl; every From is judged against the reference model for the table as it is AT THAT MOMENT (a violation that a never-used converter with the same table does not show gets the key prefix 'used-converter:'). " +
-		"Engine 'meta': a generated tree + table is converted with ordinary metadata (files 0644 in a 0755 directory, owned by the caller, fresh time stamps, one link, dense), then 3-8 changes of metadata that touch neither content nor eligibility are applied one after the other - permission bits of (mostly eligible) files and of targets of eligible links (0666 0777 0606 0646, 0664 0775, 0444 0400 0555, setuid/setgid/sticky, 0755 0700, 0600 0640 ...), of the directory (0777 1777 2775 0555 0500 ...), owner/group 65534 for files and directory, mtime/atime from 1901 to 3000, 1-2 more hard links (outside the directory or under a dot-name inside), the same bytes re-written with a hole (sparse) - and the directory is converted after each change: the payload must stay byte-for-byte the one built with ordinary metadata; afterwards the changed files as single sources, a never-used converter, and for a sample of default-table trees the real binaries"
+		"Engine 'meta': a generated tree + table is converted with ordinary metadata (files 0644 in a 0755 directory, owned by the caller, fresh time stamps, one link, dense), then 3-8 changes of metadata that touch neither content nor eligibility are applied one after the other - permission bits of (mostly eligible) files and of targets of eligible links (0666 0777 0606 0646, 0664 0775, 0444 0400 0555, setuid/setgid/sticky, 0755 0700, 0600 0640 ...), of the directory (0777 1777 2775 0555 0500 ...), owner/group 65534 for files and directory, mtime/atime from 1901 to 3000, 1-2 more hard links (outside the directory or under a dot-name inside), the same bytes re-written with a hole (sparse) - and the directory is converted after each change: the payload must stay byte-for-byte the one built with ordinary metadata; afterwards the changed files as single sources, a never-used converter, and for a sample of default-table trees the real binaries. " +
+		"Engine 'spell' (source spellings x configuration matrix): one case = one source (a generated tree or a single matched / unmatched file; names plain, with spaces, '%', '=', a leading '-' or '.') planted under one of 14 SPELLING classes - relative to the program's working directory, ./x, x/ x// x/., p//x, ../x, x below a symlinked parent, below a dot-directory, absolute, p/../x with p a real directory, a symlink as the last component, and four classes in which lexical cleaning and the operating system DISAGREE: cur/../x (./cur/../x, cur/./../x, cur//../x), /abs/cur/../x, a/cur/../../x with cur a symlink to a directory elsewhere, and ../x from a working directory reached through a symlink - with a DECOY source planted where the cleaned path points (or nothing there). The payload must be that of the source the operating system resolves the value to: reference = the model reading through the SAME spelling with os.Open/ReadDir/ReadFile, cross-checked with the plain path of what was planted. Observed at: Converter.From(spelled path) and From(spelled, plain); curlrevshell -print-ctrl-i with the flag spelled -ctrl-i V / -ctrl-i=V / --ctrl-i V / --ctrl-i=V / given twice (same value; two spellings of the same source), once under ONE other documented option and once under a PAIR drawn by index from 25 (-one-shell, -serve-files-from directory / single file / empty / spaces at the edges / relative ../ through a symlink / the source itself, -callback-address one / 36, -callback-template regular / symlink / missing, -tls-certificate-cache explicit / next to the source / empty, -log / CURLREVSHELL_LOG / relative, -no-timestamps, -ipv6-one-liners, -icanhazip, -listen-address other loopback / host name / given twice, -prompt; each itself spelled -f v, -f=v, --f v, --f=v); the shellfuncsfile tool with -no-list-function spelled five ways or absent / =false, '--', and two or three sources in a given order; and, for every third case, the real program on a pty under one option or a pair with a shell connected on /io: Tab (the bytes the shell receives = payload + list function) and Ctrl+J (the byte count announced). A deviation is attributed by control runs: same options with the plain absolute path (=> key spelled-source:<kind>:<class>), then without the options (=> configuration:<kind>:<options>), else the tree diagnosis"
 	r.Assumptions = []string{
 		"per-file conversion by FromPerl is taken from the library (judged by C16); the appended list function is taken from GenFuncList (judged by C18)",
 		"filter patterns are well-formed; filters never fail",
@@ -1754,6 +1760,7 @@ func Run(r *mon.Run) {
 		"SetFilter on a zero Converter{} panics on this tree (nil map); user-modified tables are therefore built on NewDefaultConverter() with defaults removed by SetFilter(p, nil); the zero Converter is only used without filters",
 		"files do not change during a call; FIFOs and devices are not generated",
 		"history engine: SetFilter is never called while a From of the same converter runs (that is the tree engine's concurrent case, with an unrelated pattern); the trees of a history are generated for the union of all patterns the history may use, so that no dangling link ever has a non-dot name matching a pattern of any of its tables",
+		"spell engine: the operating system decides what a path names (symlinks are followed, '..' is resolved after them); the value of the last -ctrl-i wins when the flag is repeated, so repeated flags only ever name the same source; options that are not about Ctrl+I (and -print-ctrl-i exiting before they are used) do not change the payload; a single file given through a symlink carries the link's own base name, which equals the target's; watchdogs of terminal sessions (30 s per step) expiring are inconclusive, an error message on Tab / Ctrl+J for an existing source is a violation",
 		"meta engine: the harness runs as root (chown to 65534 is possible and every mode leaves the file readable for the caller: all modes used include owner-read anyway); a change the platform refuses is counted as not possible, and the floors then make the run inconclusive; files outside the case's own scratch directory (targets like /proc/version) are never touched; a sparse file is only counted if stat reports fewer allocated bytes than its size; the run of NUL bytes needed for a hole is first written densely (a content change, judged against the reference) and only then re-written sparsely",
 	}
 	n := r.N(500, 10000)
@@ -1781,6 +1788,31 @@ func Run(r *mon.Run) {
 			msample[i] = true
 		}
 	}
+	// source spellings x configuration matrix (spell.go); the cases that run
+	// the program on a terminal come first so that they overlap with the rest
+	ns := r.N(56, 420)
+	rot := r.Rng("spell-plan", 0).IntN(1000)
+	copts := cfgOptions(bins)
+	npty := 0
+	for i := 0; i < ns; i++ {
+		if i%3 == 0 {
+			npty++
+		}
+	}
+	// the spell cases mostly wait for child processes: they get a pool of their
+	// own that runs beside the in-process engines
+	var spellDone sync.WaitGroup
+	spellDone.Add(1)
+	go func() {
+		defer spellDone.Done()
+		mon.Parallel(ns, max(4, runtime.NumCPU()), func(j int) {
+			if r.Want("spell", j) {
+				checkSpell(r, j, rot, bins, copts, j%3 == 0)
+			}
+		})
+	}()
+	defer spellFloors(r, ns, npty, copts)
+	defer spellDone.Wait()
 	mon.Parallel(n+nh+nm, runtime.NumCPU(), func(j int) {
 		switch {
 		case j < n:
